@@ -135,7 +135,26 @@ func Materialize(op cs.Op) cs.Op {
 		op.Docs = op.Gen.Docs(GenId)
 		op.Gen = nil
 	}
+	if op.Kind == "genimport" {
+		genImport(&op)
+	}
 	return op
+}
+
+// genImport turns a generated-import step into an import whose file holds the JSON image of
+// the generated documents.
+func genImport(op *cs.Op) {
+	op.Kind = "import"
+	docs := op.Gen.Docs(GenId)
+	list := make([]interface{}, len(docs))
+	op.Docs = make([]cs.Doc, len(docs))
+	for i, d := range docs {
+		op.Docs[i] = cs.JSONImageDoc(d)
+		list[i] = map[string]interface{}(op.Docs[i])
+	}
+	b, _ := json.Marshal(list)
+	op.Content = string(b)
+	op.Gen = nil
 }
 
 func (s *Session) resolve(op *cs.Op) *cs.Op {
@@ -144,6 +163,9 @@ func (s *Session) resolve(op *cs.Op) *cs.Op {
 		r.Kind = "insert"
 		r.Docs = op.Gen.Docs(GenId)
 		return &r
+	}
+	if op.Kind == "genimport" {
+		genImport(&r)
 	}
 	if op.Id != nil && op.Id.Sym {
 		r.Id = &cs.IdRef{Lit: s.assigned[[2]int{op.Id.Step, op.Id.Pos}]}
@@ -182,7 +204,9 @@ func (s *Session) Do(op cs.Op) *Fail {
 	s.Ops = append(s.Ops, op)
 	r := s.resolve(&op)
 
-	if r.Kind == "import" && r.Content != "" {
+	if r.Kind == "import" && r.Raw != nil {
+		os.WriteFile(r.Path, r.Raw, 0o644)
+	} else if r.Kind == "import" && r.Content != "" {
 		os.WriteFile(r.Path, []byte(r.Content), 0o644)
 	}
 	if r.FaultAt > 0 {
@@ -309,7 +333,7 @@ func (s *Session) noteFacts(op *cs.Op, out *cs.Outcome) {
 	}
 	if out.Err != "" {
 		switch op.Kind {
-		case "find", "count", "exists", "findfirst", "foreach", "findbyid", "hascoll", "listcolls", "hasindex", "listindexes":
+		case "find", "iterate", "count", "exists", "findfirst", "foreach", "findbyid", "hascoll", "listcolls", "hasindex", "listindexes":
 		default:
 			s.Facts["failed-writes"]++
 		}
